@@ -19,7 +19,7 @@ CLAIMS = {
  "C03": ("proof",
   "Structural core decided on SSA: formatting is a function of the tree and the mode flags only - no function reachable from the PrettyPrint methods, DebugString or the PrintState methods reads a package-level variable that is written after initialisation, ranges over a map, or can reach time / random / os functions; this is the 'in any process, after any other inputs were parsed' part of the property, for every input. "
   "The fixpoint print(parse(print(t))) = print(t) and the single trailing newline are covered by a bounded stand-in on the C02 corpus (both modes, two rounds per process), labelled bounded.",
-  "Audits only (no SMT obligations); the parser's own determinism is not audited; the fixpoint is bounded only."),
+  "Audits only (no SMT obligations): besides the printer audits, no function reachable from the lexer or the parser uses a package-level variable written after initialisation (token tables excepted on the strength of the interning contracts proved under C16), so the output is a function of the input text alone; the fixpoint itself is bounded only."),
  "C04": ("proof",
   "Proved for all inputs: the guard discipline of the function-result cache. applyFunction stores a result only when the callee scope's miss counter did not move during the body and the result is not an error (preconditions at the call to Cache.Set), and every call that could not be cached is counted in the caller's scope (the genuine defect found here - a callee's outside lookup did not reach the caller - is fixed); "
   "the miss counter of every scope is monotone across every evaluator step and every Environment getter/setter (quantified frame clause on 30 functions), and applyExtension counts an extension marked DontCache before calling it. "
@@ -67,7 +67,7 @@ CLAIMS = {
  "C13": ("proof",
   "Structural core decided on SSA over the whole repository, for every input: syntax trees are immutable after construction. No function stores into a field of a syntax-tree node or into an element of a []ast.Node block that it did not allocate in the same activation, except DefineMacros (which removes definitions from the program it is given); ast.Modify/ModifyNoOk are therefore copying rewriters (the class of the sharing bug of issue #223), macro objects are written only at creation, and quoteArgs calls nothing. "
   "This gives: a definition is not altered by its uses, call sites expand independently, arguments are not evaluated during expansion. That the expanded tree is exactly the hand-substituted one is a relation over all templates and is covered by a bounded stand-in (14 templates x 10 argument tuples x 5 contexts, printed, re-parsed and evaluated), labelled bounded.",
-  "The structural clauses are audits on the real code's SSA (no SMT obligations); freshness is syntactic per activation. Bounded stand-in is not a proof."),
+  "The structural clauses are audits on the real code's SSA (no SMT obligations), including that the per-node callbacks of ExpandMacros / DefineMacros write no captured variable or map (call sites share no state); freshness is syntactic per activation. Bounded stand-in is not a proof."),
  "C14": ("proof",
   "Structural core decided on the SSA of the real SaveGlobals / Inspect code, for every state: the file is written only through two fmt.Fprintf calls with the constant formats \"%s\\n\" and \"%s=%s\\n\" (one terminated line per binding), the name=value write is reached only when no limit is configured or len(val) > limit is false for the very string that is written and the function slices no string (over-long values are skipped, never truncated), the keys are sorted before the first write (the file is a function of the bindings), and String.Inspect is strconv.Quote. SaveGlobals's write-error contract (C18) is re-proved. "
   "That the saved text parses and evaluates back to an equal value of the same type, and functions to equally behaving functions, goes through printer, lexer, parser and evaluator: bounded stand-in (30 data bindings across all kinds and both size thresholds, 8 functions, reload whole and line by line, re-save). One genuine defect found by it is fixed (control-character escapes); two are recorded as known findings (integral floats reload as integers; the smallest integer reloads as a float).",
@@ -75,7 +75,7 @@ CLAIMS = {
  "C15": ("proof",
   "Lexer level, decided for every input: the two modes differ only in the end marker. The field Lexer.lineMode is read by exactly one function (EOLEOF, contract proved: EOL in line mode, EOF otherwise), written only by the constructor on the object it allocates, and EOLEOF's result flows only into NextToken's return value (three SSA audit clauses); with NextToken's C16 contract this makes every non-end token and every lexer position the same function of (input, position) in both modes. "
   "The parser (prefix/infix function-value tables) is outside govc's subset, so 'same tree', 'asks for more input' and the statement-by-statement session equivalence are covered by a bounded stand-in over the repository's examples, tests and generated programs (every token-boundary prefix), labelled bounded. One genuine deviation is recorded as a known finding.",
-  "Assumed: no reflective/unsafe access to the mode field; parser behaviour only bounded."),
+  "Also proved under C15 (the lexer contracts of C16 re-verified): an end token produced by an unclosed string or block comment has consumed the rest of the input, so none of its text is lexed as program tokens. Assumed: no reflective/unsafe access to the mode field; what the parser returns (same tree, continuation request) only bounded - C08 proves its panic freedom, not its results."),
  "C16": ("proof",
   "Token-stream tiling: NextToken and every helper are proved, for every input and lexer state satisfying wf(l), to return a token whose span is exactly input[s:pos] (after skipped whitespace), to advance, to stay within bounds, and to keep the intern tables consistent; "
   "comment bodies are minimal, EOF is sticky except at the two recorded NUL-byte findings.",
